@@ -541,11 +541,26 @@ func (v *Validator) typeOfComparison(env *requestEnv, left, right ast.IsNode, ca
 	if rightExpectErr != nil {
 		errs = append(errs, rightExpectErr)
 	}
+	// The ordering operators are defined on two Longs, two datetimes or two durations: operands that are each
+	// comparable but of different types (1 < datetime("...")) fail at run time with a type error.
+	if len(errs) == 0 && lt != nil && rt != nil && !sameComparableType(lt, rt) {
+		errs = append(errs, unexpectedTypeErr(cedarTypeName(lt), rt))
+	}
 
 	if len(errs) > 0 {
 		return typeBool{}, caps, errors.Join(errs...)
 	}
 	return typeBool{}, caps, nil
+}
+
+func sameComparableType(a, b cedarType) bool {
+	if _, ok := a.(typeLong); ok {
+		_, ok = b.(typeLong)
+		return ok
+	}
+	ea, oka := a.(typeExtension)
+	eb, okb := b.(typeExtension)
+	return oka && okb && ea.name == eb.name
 }
 
 func (v *Validator) typeOfArith(env *requestEnv, left, right ast.IsNode, caps capabilitySet) (cedarType, capabilitySet, error) {
